@@ -136,6 +136,6 @@ def attach : List Rcv → List (Option Pos) → List Rx
 def annotate (g : Gates) (dist : Pos → Pos → Rat) (reference : Option Pos) (h : List Rcv) : List Rx :=
   attach h (decodePositions g dist none reference (reportsOf h))
 
-/-! ### Line protocol: `snapp [@<lat>,<lon>] <t>:<framehex> …` (`t`, `lat`, `lon` exact decimals; parsed by the driver) -/
+/-! Line protocol `snapp [@<lat>,<lon>] <t>:<framehex> …`: `Driver/Pipeline.lean` (exact decimal texts). -/
 
 end Rs1090.Model.Pipeline
